@@ -205,7 +205,7 @@ Print Assumptions timestamp_scaling_exact.
 
 (* A label list written in the Loki text syntax -- names [a-zA-Z_][a-zA-Z0-9_]*, every value between double quotes with each
    byte written in any of the forms raw ASCII / raw well-formed UTF-8 sequence / \a \b \f \n \r \t \v \\ and the escaped quote / \xHH / \ooo /
-   \uXXXX of a rune below 65536 (so ANY byte
+   \uXXXX of a rune below 65536 / \UXXXXXXXX of any rune up to U+10FFFF (the whole output alphabet of strconv.Quote; ANY byte
    string can be a value), pairs separated by a comma and any white space -- is read back as exactly that list, appended to
    the labels already in the buffer, whatever text follows the closing brace. No label is dropped, split or merged. *)
 Theorem label_string_roundtrip :
@@ -312,6 +312,15 @@ Theorem cut_body_fails_or_is_answered_in_full :
 Proof. intros. apply cut_fails_or_full. Qed.
 Print Assumptions cut_body_fails_or_is_answered_in_full.
 
+(* key order inside an element of "entries": when each of the three slots -- the timestamp (ts or timestamp), line, value -- is
+   written by at most one member, the members can come in ANY order, with any unknown members between them: the element is read
+   as the same entry (or refused alike) *)
+Theorem entries_element_key_order_irrelevant :
+  forall (rfc : string -> option Z) (ms1 ms2 : list (string * jv)),
+  Permutation.Permutation ms1 ms2 -> slots_once ms1 -> entry_entry rfc (JObj ms1) = entry_entry rfc (JObj ms2).
+Proof. intros. unfold entry_entry. now apply entry_members_perm. Qed.
+Print Assumptions entries_element_key_order_irrelevant.
+
 (* ---------------------------------------------------------------- Datadog log tags (tagPattern, model/DatadogJson.v) *)
 
 (* a Datadog log document written by a client -- an array of objects with ddtags written k:v,k:v, optional ddsource / service /
@@ -378,7 +387,7 @@ Proof. vm_compute. repeat split. Qed.
 
 (* a written label list with every escape form, a multi-byte rune, a byte that is not UTF-8 and an empty value *)
 Example label_string_hypotheses_met :
-  let ls := [("app", [QByte "a"%char; QSimple "n"%char; QHex 255%N; QRune "é"; QSimple """"%char; QByte "}"%char; QOct 200%N; QU4 8203%N]); ("__name__", []); ("x_9", [QRune "名"; QHex 0%N; QOct 0%N; QU4 233%N])]%string in
+  let ls := [("app", [QByte "a"%char; QSimple "n"%char; QHex 255%N; QRune "é"; QSimple """"%char; QByte "}"%char; QOct 200%N; QU4 8203%N]); ("__name__", []); ("x_9", [QRune "名"; QHex 0%N; QOct 0%N; QU4 233%N; QU8 128512%N; QU8 65%N])]%string in
   forallb pair_ok ls = true /\ all_bytes is_ws (String (Ascii.ascii_of_N 32) (String (Ascii.ascii_of_N 10) EmptyString)) = true /\
   wstream_ok (ls, [LE 1 (Some "x"%string) None]) = true /\
   parse_labels (fun _ => false) (fun _ => false) (print_labels " " ls ++ " trailing")%string [("pre", "1")]%string
@@ -459,4 +468,15 @@ Example cut_body_computed :
   (match cut 2%nat true with ReadFailed sent => List.length sent | Answered _ => 99%nat end) = 2%nat /\
   (match cut 2%nat false with Answered (Done cs) => List.length (rows_of cs) | _ => 99%nat end) = 2%nat.
 Proof. vm_compute. repeat split. Qed.
+
+Example entries_key_order_hypotheses_met :
+  let ms := [("line", JStr "x"); ("foo", JNull); ("timestamp", JStr "5"); ("value", JNum 0%N None)]%string in
+  slots_once ms /\ Permutation.Permutation ms (rev ms) /\
+  entry_entry (fun _ => None) (JObj (rev ms)) = Some (LE 5 (Some "x"%string) (Some 0%N)).
+Proof.
+  split; [|split].
+  - intros s Hs. do 4 (destruct s as [|s]; [try congruence; cbn; lia|]). cbn. lia.
+  - apply Permutation.Permutation_rev.
+  - vm_compute. reflexivity.
+Qed.
 
